@@ -26,6 +26,7 @@ type step struct {
 }
 
 type plan struct {
+	Mnemonic string `json:"mnemonic"`
 	SignType string `json:"sign_type"`
 	Pw0      string `json:"pw0"`
 	Create   int    `json:"create"`
@@ -41,7 +42,8 @@ func validPassword(rng *lib.Rng) string {
 	if rng.Chance(30) {
 		n = lib.Pick(rng, []int{8, 9, 29, 30})
 	}
-	b := make([]byte, 0, n)
+	// at least one letter and one digit; length counted in bytes
+	b := []byte{letters[rng.Intn(len(letters))], digits[rng.Intn(10)]}
 	for len(b) < n {
 		if rng.Chance(25) {
 			b = append(b, digits[rng.Intn(10)])
@@ -51,9 +53,6 @@ func validPassword(rng *lib.Rng) string {
 			b = append(b, letters[rng.Intn(len(letters))])
 		}
 	}
-	// make sure there is at least one letter and one digit (ASCII positions only)
-	b[0] = letters[rng.Intn(len(letters))]
-	b[1] = digits[rng.Intn(10)]
 	return string(b)
 }
 
@@ -77,6 +76,7 @@ func genPlan(in histIn) *plan {
 	if rng.Chance(30) {
 		p.SignType = "ed25519"
 	}
+	p.Mnemonic = wenv.Mnemonic(rng.Bytes(20), int32(rng.Intn(2)))
 	n := rng.Range(3, 15)
 	cur := p.Pw0
 	for i := 0; i < n; i++ {
@@ -114,6 +114,7 @@ type hist struct {
 	in    histIn
 	out   *histOut
 	rng   *lib.Rng
+	seed  string // model: the mnemonic
 	cfg   *types.Chain33Config
 	e     *wenv.Env
 	cur   string            // model: current password
@@ -203,8 +204,8 @@ func (h *hist) verify(after string) {
 	}
 	seed, err := h.e.W.GetSeed(h.cur)
 	h.out.Counters["seed_compared"]++
-	if err != nil || seed != wenv.Seed {
-		h.violation("seed-mismatch:"+after, fmt.Sprintf("after step %q GetSeed(current password) = (%q, %v), model %q", after, seed, err, wenv.Seed),
+	if err != nil || seed != h.seed {
+		h.violation("seed-mismatch:"+after, fmt.Sprintf("after step %q GetSeed(current password) = (%q, %v), model %q", after, seed, err, h.seed),
 			map[string]any{"after": after, "got": seed, "err": fmt.Sprint(err)})
 	}
 }
@@ -220,11 +221,11 @@ func histChild(inb []byte) (any, error) {
 	os.MkdirAll(dir, 0o755)
 	cfg := wenv.NewConfig(dir)
 	cfg.GetModuleConfig().Wallet.SignType = p.SignType
-	h := &hist{in: in, out: out, rng: lib.NewRng(in.Seed ^ 0x37373737), cfg: cfg, keys: map[string][]byte{}}
+	h := &hist{in: in, out: out, rng: lib.NewRng(in.Seed ^ 0x37373737), cfg: cfg, seed: p.Mnemonic, keys: map[string][]byte{}}
 	h.e = wenv.Start(cfg)
 	defer func() { h.e.Stop() }()
 	// ---- setup
-	if ok, err := h.e.W.SaveSeed(p.Pw0, wenv.Seed); !ok {
+	if ok, err := h.e.W.SaveSeed(p.Pw0, p.Mnemonic); !ok {
 		out.SetupErr = fmt.Sprintf("SaveSeed: %v", err)
 		return out, nil
 	}
@@ -316,7 +317,7 @@ func histChild(inb []byte) (any, error) {
 				}
 			}
 			if st.N <= 1 {
-				if err := h.e.W.GetDBStore().SetSync(wallet.WalletSeed, legacyGCMEncrypt([]byte(h.cur), []byte(wenv.Seed))); err == nil {
+				if err := h.e.W.GetDBStore().SetSync(wallet.WalletSeed, legacyGCMEncrypt([]byte(h.cur), []byte(h.seed))); err == nil {
 					out.Counters["legacy_seed_blobs_written"]++
 				}
 			}
